@@ -3,8 +3,10 @@
 set -e
 cd /verif
 b=$1
+git add -A; git commit -qm "evidence before merging $b" || true
 git fetch -q /work/$b/verif $b
 git merge --no-edit FETCH_HEAD >/tmp/merge_$b.log 2>&1 || true
+if grep -q "^Aborting" /tmp/merge_$b.log; then cat /tmp/merge_$b.log; echo "MERGE ABORTED"; exit 1; fi
 if git status --short | grep -q "^\(UU\|AA\) known_findings.json"; then
   git show :2:known_findings.json > /tmp/kf_ours.json; git show :3:known_findings.json > /tmp/kf_theirs.json
   python3 - <<'PY'
